@@ -2,7 +2,16 @@
 the JS-facing Linter::lint (harper-wasm), the CLI lint command (harper-cli), CurrencyPlacement and the
 merge_linters! macro.  For each site the table records whether, inside the enclosing function, the
 call `remove_overlaps(&mut lints)` is still applied to the lint vector that is afterwards returned /
-printed.  Raises if a file is missing."""
+printed.  Raises if a file is missing.
+
+Deepening (phase 3):
+* census: every `.rs` file of /repo is scanned for calls of remove_overlaps; the set of (file, number of
+  calls) must be exactly CENSUS — the module RAISES when a new caller appears or a known one disappears
+  (the models of Model/C13Callers.v would no longer cover "the callers").
+* skeletons: for each site the ordered list of statements that touch the lint vector `lints`, each
+  classified by shape; a statement touching `lints` that matches no known shape RAISES; the order is
+  emitted and compared in Coq with the order the models of C13Callers.v compose
+  (Proofs/OverlapCallers.v: overlap_call_skeletons_ok)."""
 import os, re
 
 SITES = [
@@ -11,6 +20,67 @@ SITES = [
     ("harper-core/src/linting/currency_placement.rs", r"fn lint\(&mut self, document: &Document\)", "currency_placement"),
     ("harper-core/src/linting/merge_linters.rs", r"fn lint\(&mut self, document: &Document\)", "merge_linters_macro"),
 ]
+
+# file -> number of call expressions `remove_overlaps(` (the definition `fn remove_overlaps(` is not a call)
+CENSUS = {
+    "harper-wasm/src/lib.rs": 1,
+    "harper-cli/src/main.rs": 1,
+    "harper-core/src/linting/currency_placement.rs": 1,
+    "harper-core/src/linting/merge_linters.rs": 1,
+    "harper-core/src/lib.rs": 1,          # the unit test keeps_space_lint next to the definition
+}
+
+# statement shapes that may touch `lints` inside a call site, in no particular order
+SHAPES = [
+    (r"let\s+mut\s+lints\s*=\s*(?:self\.lint_group|linter)\.lint\(&\w+\)\s*;", "lint_group"),
+    (r"let\s+mut\s+lints\s*=\s*Vec::new\(\)\s*;", "new"),
+    (r"if\s+count\s*\{\s*println!\(\s*\"\{\}\"\s*,\s*lints\.len\(\)\s*\)\s*;\s*return\s+Ok\(\(\)\)\s*;\s*\}", "count_len_return"),
+    (r"if\s+lints\.is_empty\(\)\s*\{\s*println!\(\s*\"No lints found\"\s*\)\s*;\s*return\s+Ok\(\(\)\)\s*;\s*\}", "empty_return"),
+    (r"lints\.extend\(\s*generate_lint_for_tokens\(\s*a\s*,\s*b\s*,\s*document\s*\)\s*\)\s*;", "extend_ab"),
+    (r"lints\.extend\(\s*generate_lint_for_tokens\(\s*a\s*,\s*c\s*,\s*document\s*\)\s*\)\s*;", "extend_ac"),
+    (r"lints\.extend\(\s*self\.\[<\s*\$linter:snake\s*>\]\.lint\(document\)\s*\)\s*;", "extend_sub"),
+    (r"remove_overlaps\(&mut lints\)\s*;", "remove_overlaps"),
+    (r"self\.ignored_lints\.remove_ignored\(&mut lints\s*,\s*&document\)\s*;", "remove_ignored"),
+    (r"\blints\s*\.into_iter\(\)\s*\.map\(", "map_each"),
+    (r"for\s+lint\s+in\s+lints\s*\{", "label_each"),
+    (r"\blints\s*\}\s*$", "return"),
+]
+
+def census(repo):
+    found = {}
+    for root, dirs, files in os.walk(repo):
+        dirs[:] = [d for d in dirs if d not in ("target", "node_modules", ".git")]
+        for f in files:
+            if not f.endswith(".rs"):
+                continue
+            p = os.path.join(root, f)
+            code = open(p, encoding="utf-8", errors="replace").read()
+            code = re.sub(r"//[^\n]*", "", code)
+            n = len(re.findall(r"(?<!fn )\bremove_overlaps\s*\(", code))
+            if n:
+                found[os.path.relpath(p, repo)] = n
+    if found != CENSUS:
+        new = sorted(set(found) - set(CENSUS)); gone = sorted(set(CENSUS) - set(found))
+        diff = sorted(k for k in set(found) & set(CENSUS) if found[k] != CENSUS[k])
+        raise RuntimeError("callers of remove_overlaps changed: new files %s, gone %s, different number of calls %s "
+                           "(found %s) — extend Model/C13Callers.v and this table" % (new, gone, diff, found))
+    return sorted(found.items())
+
+def skeleton(body, name):
+    hits = []
+    for rx, tag in SHAPES:
+        for m in re.finditer(rx, body):
+            hits.append((m.start(), m.end(), tag))
+    hits.sort()
+    for (s1, e1, _), (s2, e2, _) in zip(hits, hits[1:]):
+        if s2 < e1:
+            raise RuntimeError("overlapping statement shapes in %s" % name)
+    for m in re.finditer(r"\blints\b", body):
+        if not any(s <= m.start() < e for s, e, _ in hits):
+            line = body[:m.start()].count("\n") + 1
+            raise RuntimeError("%s: a statement touching `lints` has a shape this table does not know "
+                               "(line %d of the function body: %r)" % (name, line, body[max(0, m.start() - 40):m.start() + 40]))
+    return [t for _, _, t in hits]
 
 def body_after(code, m):
     i = code.find("{", m.end() - 1)
@@ -27,6 +97,8 @@ def body_after(code, m):
 
 def generate(repo):
     rows = []
+    cens = census(repo)
+    skels = []
     for rel, fn_rx, name in SITES:
         p = os.path.join(repo, rel)
         code = open(p, encoding="utf-8").read()
@@ -47,10 +119,20 @@ def generate(repo):
                 seg = pre[last_if:]
                 guarded = seg.count("{") > seg.count("}")
         rows.append((name, rel, ok and not guarded))
+        skels.append((name, skeleton(body, name)))
     out = ["(* GENERATED by tools/tables/overlapcallers.py from /repo — do not edit. *)",
            "From Coq Require Import List String Bool.", "Import ListNotations.", "Open Scope string_scope.", "",
            "(* (site, file, remove_overlaps is applied unconditionally to the lints before they leave) *)",
            "Definition overlap_call_sites : list (string * string * bool) := ["]
     out.append(";\n".join('  ("%s", "%s", %s)' % (n, r, "true" if ok else "false") for n, r, ok in rows))
+    out.append("].")
+    out += ["", "(* every .rs file of the repository that calls remove_overlaps, with the number of calls",
+            "   (the generator raises when this set changes) *)",
+            "Definition overlap_call_census : list (string * nat) := ["]
+    out.append(";\n".join('  ("%s", %d)' % (f, n) for f, n in cens))
+    out.append("].")
+    out += ["", "(* per site: the statements that touch the lint vector, in source order, by shape *)",
+            "Definition overlap_call_skeletons : list (string * list string) := ["]
+    out.append(";\n".join('  ("%s", [%s])' % (n, "; ".join('"%s"' % t for t in sk)) for n, sk in skels))
     out.append("].")
     return "\n".join(out) + "\n"
